@@ -43,7 +43,8 @@ CheckCase(c) ==
     [] c.ev = "boot_import" ->
          LET n == Len(c.obs.chains[1].d) IN
          IF Len(c.table) < n THEN Verdict(id, "fewer-samples-than-configurations-must-raise", c.res.k = "exc")
-         ELSE IF ~Determined(c.table, n) THEN Skip(id, "resampling table without full column rank: nothing claimed")
+         \* (large tables come with the rank established numerically by the driver: smallest singular value well above rounding)
+         ELSE IF ~(IF "fullrank" \in DOMAIN c THEN c.fullrank ELSE Determined(c.table, n)) THEN Skip(id, "resampling table without full column rank: nothing claimed")
          ELSE Restored(id, c.res, c.obs, T8, FALSE)
     [] c.ev = "boot_seed" ->   \* default (name-seeded) tables: reproducible, the same for every observable on the chain
          /\ Verdict(id, "reproducible", c.first = c.second)
